@@ -1,2 +1,73 @@
-(* props/C18.v — placeholder until the theorems of this property are added. *)
-From Prophy Require Import Bytes Schema Layout Wire PcModel.
+(* props/C18.v — text rendering is the same in Python and C++ and is not order-sensitive.
+   spec/Text.v states the text of a message as the property describes it (a list of indented lines:
+   'name: value' per scalar, enumerators by name, bytes quoted and escaped, array elements repeated under
+   the member's name, absent optionals and counters omitted, the discriminated arm only, nested composites
+   as 'name {' ... '}' blocks one level deeper). model/Print.v follows the two implementations: Python's
+   field_to_string / __str__ (nested text re-indented afterwards by split / join at newlines, bytes through
+   CPython's repr with its choice of the quote and six.repr_bytes) and the generated C++ print() over
+   detail/printer.hpp (indentation passed down, print_byte changing and restoring the stream's base and
+   fill). Proved: both produce exactly the specified text for every type, every fitting name tree and every
+   well-typed value — hence the same text —, the C++ stream leaves every print in its initial formatting
+   state, and the text of a struct is the concatenation of texts that each depend on one member alone.
+   Not modelled: floating point members (repr() and iostream formatting), carried as hypothesis
+   [no_float]. *)
+From Coq Require Import ZArith List Bool.
+From Prophy Require Import Bytes Schema Text Print PrintFacts.
+Import ListNotations.
+Local Open Scope Z_scope.
+
+Theorem C18_python_text_is_specified :
+  forall t n v, no_float t = true -> names_ok t n = true -> wt t v = true -> py_str t n v = text_of t n v.
+Proof. intros t n v _ Hn Hw. exact (py_text_spec t n v Hn Hw). Qed.
+Print Assumptions C18_python_text_is_specified.
+
+Theorem C18_cpp_text_is_specified :
+  forall t n v, no_float t = true -> names_ok t n = true -> wt t v = true -> cpp_text t n v = text_of t n v.
+Proof. intros t n v _ Hn Hw. exact (cpp_text_spec t n v Hn Hw). Qed.
+Print Assumptions C18_cpp_text_is_specified.
+
+Theorem C18_python_cpp_same_text :
+  forall t n v, no_float t = true -> names_ok t n = true -> wt t v = true -> py_str t n v = cpp_text t n v.
+Proof. intros t n v _ Hn Hw. rewrite (py_text_spec t n v Hn Hw), (cpp_text_spec t n v Hn Hw). reflexivity. Qed.
+Print Assumptions C18_python_cpp_same_text.
+
+(* rendering never leaves the C++ stream in another formatting state (base, fill) than it found it:
+   whatever is printed next starts from the initial state, at any nesting depth, after any prefix *)
+Theorem C18_cpp_stream_state_restored :
+  forall t n v ind s, names_ok t n = true -> wt t v = true -> snd (cpp_print t n v ind (s, fmt0)) = fmt0.
+Proof. intros t n v ind s Hn Hw. rewrite (cpp_print_spec t n v ind s Hn Hw). reflexivity. Qed.
+Print Assumptions C18_cpp_stream_state_restored.
+
+(* member by member: the text of a struct is the concatenation, in declaration order, of texts that are
+   each a function of one member only (name, type, value, whether it is a counter) *)
+Theorem C18_struct_text_memberwise :
+  forall fs ms vs, names_ok (TStruct fs) (NStruct ms) = true -> wt (TStruct fs) (VStruct vs) = true ->
+    py_str (TStruct fs) (NStruct ms) (VStruct vs) = fields_text fs O fs ms vs
+    /\ cpp_text (TStruct fs) (NStruct ms) (VStruct vs) = fields_text fs O fs ms vs.
+Proof.
+  intros fs ms vs Hn Hw. rewrite (py_text_spec _ _ _ Hn Hw), (cpp_text_spec _ _ _ Hn Hw).
+  unfold text_of. cbn [body_lines]. rewrite fields_text_eq. split; reflexivity.
+Qed.
+Print Assumptions C18_struct_text_memberwise.
+
+(* bytes holding an apostrophe and no double quote (here: it + apostrophe + s): CPython's repr switches to
+   double quotes; six.repr_bytes (fix 3ae01ee) and the C++ printer both write the single-quoted form with the
+   apostrophe escaped *)
+Example C18_quote_witness :
+  py_repr_tail [105; 116; 39; 115] = [34; 105; 116; 39; 115; 34] /\
+  py_repr_bytes [105; 116; 39; 115] = [39; 105; 116; 92; 39; 115; 39] /\
+  fst (cpp_put_bytes [105; 116; 39; 115] ([], fmt0)) = [39; 105; 116; 92; 39; 115; 39].
+Proof. vm_compute. repeat split; reflexivity. Qed.
+
+(* non-vacuity: counter omitted, escaped bytes (hex escape followed by numbers), present optional struct,
+   enum array, nested struct *)
+Example C18_example :
+  let tF := TStruct [(FPlain, TScalar U32); (FPlain, TScalar I8)] in
+  let nF := NStruct [([97], NLeaf); ([98], NLeaf)] in
+  let t := TStruct [(FPlain, TScalar U32); (FBound 0%nat, TByte); (FOpt, tF); (FFixed 2, TEnum [1; 2]); (FPlain, tF)] in
+  let n := NStruct [([110], NLeaf); ([120], NLeaf); ([111], nF); ([101], NEnum [(1, [65]); (2, [66])]); ([102], nF)] in
+  let v := VStruct [VInt 3; VList [VInt 39; VInt 200; VInt 10]; VSome (VStruct [VInt 5; VInt (-3)]);
+                    VList [VInt 2; VInt 1]; VStruct [VInt 7; VInt 8]] in
+  no_float t = true /\ names_ok t n = true /\ wt t v = true /\ legal t = true /\
+  len (py_str t n v) = 65 /\ py_str t n v = cpp_text t n v.
+Proof. vm_compute. repeat split; reflexivity. Qed.
